@@ -123,6 +123,9 @@ type Exec struct {
 	netDgrams   [][]*term.T
 	netFrom     [][]*term.T
 	netWriteAt  []*term.T
+	netWriteEv  [][2]int // goroutine and event number of every write
+	evSeq       int
+	mutexFIFO   bool
 	netFailFrom int
 	netAttempts int
 	realDial    bool // the socket constructors of knxnet run for real (on stubbed net.Dial*), not redirected
@@ -464,6 +467,7 @@ func (e *Exec) resetPath(prefix []Decision) {
 	e.netStream, e.netDgrams, e.netWrites, e.netCuts, e.netDribble, e.netClosed = nil, nil, nil, 0, false, 0
 	e.netFrom = nil
 	e.netWriteAt, e.netFailFrom, e.netAttempts = nil, -1, 0
+	e.netWriteEv, e.evSeq, e.mutexFIFO = nil, 0, false
 	e.realDial = false
 	for _, d := range prefix {
 		if d.Uncertain {
